@@ -23,6 +23,7 @@ import vlib
 from gens import kin
 
 HARNESS_TIMEOUT = 180
+TRACE_MAX = 60000          # harness/ph_kin.cpp truncates longer traces
 
 # minimised past disagreements, always replayed first.  Both showed, before /repo commit 0450d481, a CVODE re-start that
 # continued from the state of a rejected attempt paired with the time of the last good step (result at T off by up to
@@ -118,6 +119,8 @@ def poly_compare(spec, real, model_lines):
         return "mismatch", f"model status {status}, real run completed"
     ev = [l.split() for l in model_lines if l.startswith("E ")]
     tr = real["trace"]
+    if len(tr) >= TRACE_MAX:
+        return "incomplete", "trace truncated"
     if len(tr) != 2 * n * len(ev):
         return "mismatch", f"number of RATES evaluations: real {len(tr) // (2 * n)}, model {len(ev)}"
     worst = 0.0
@@ -197,6 +200,9 @@ def analyse(prob, cfg, r):
     if r["nerr"] != 0:
         out["status"] = "error"
         out["err"] = r["err"][:160]
+        return out
+    if len(r["trace"]) >= TRACE_MAX:
+        out["status"] = "truncated"
         return out
     tol = cfg["tol"]
     names = [c[0] for c in prob.comps(tol)]
@@ -357,7 +363,7 @@ def lib_analyse(name, cfgs, results):
     """pairwise agreement at T of the library reactant and of the clock; returns (problems, n_compared, worst ratio)"""
     vals = []
     for c, r in zip(cfgs, results):
-        if r is None or r["nerr"] or not r["rows"]:
+        if r is None or r["nerr"] or not r["rows"] or len(r["trace"]) >= TRACE_MAX:
             continue
         nA = sum(1 for a in r["trace"] if a[2] == "A")
         last = r["rows"][-1]
@@ -479,14 +485,18 @@ def run(ctx):
             curb = []
         else:
             curb.append(l)
-    groups = [specs[i:i + 4] for i in range(0, len(specs), 4)]
+    pairs = list(zip(specs, blocks))
+    groups = [pairs[i:i + 4] for i in range(0, len(pairs), 4)]
+
+    def poly_group(g):
+        # compare inside the worker so that the (possibly long) traces are dropped at once
+        res = run_inputs(exe, [kin.poly_input(s) for s, _ in g], trace=True)
+        return [(poly_compare(s, r, mb), poly_oracle(s, r)) for (s, mb), r in zip(g, res)]
     with cf.ThreadPoolExecutor(vlib.NCPU) as ex:
-        reals = list(ex.map(lambda g: run_inputs(exe, [kin.poly_input(s) for s in g], trace=True), groups))
-    reals = [r for g in reals for r in g]
+        compared = [x for grp in ex.map(poly_group, groups) for x in grp]
     verdicts = {}
     corr_broken = None
-    for spec, real, mb in zip(specs, reals, blocks):
-        v, detail = poly_compare(spec, real, mb)
+    for spec, mb, ((v, detail), orc) in zip(specs, blocks, compared):
         verdicts[v] = verdicts.get(v, 0) + 1
         evals += 1
         distinct += 1
@@ -496,7 +506,6 @@ def run(ctx):
             bump("poly with rejected steps")
         if len(ctx.cov["samples"]) < 1 and v == "ok":
             ctx.sample({"poly": {"rk": spec["rk"], "step_divide": spec["step_divide"], "n": len(spec["comps"])}, "verdict": detail})
-        orc = poly_oracle(spec, real)
         if orc:
             ctx.violation("kinetic reactant amount negative: " + orc, {"kind": "poly", "spec": spec})
         elif v == "mismatch" and corr_broken is None:
@@ -518,7 +527,7 @@ def run(ctx):
             bump("incremental" if cfg["incremental"] else "cumulative")
             bump(f"division {cfg['division'][0]} x{kin.nsteps(cfg)}")
             bump("status " + o["status"])
-            if o["status"] in ("timeout", "error"):
+            if o["status"] in ("timeout", "error", "truncated"):
                 continue
             distinct += 1
             n_judged += 1
@@ -544,10 +553,11 @@ def run(ctx):
         for name in LIB:
             lib_jobs.append((name, lib_configs(rng, name)))
     with cf.ThreadPoolExecutor(vlib.NCPU) as ex:
-        lib_res = list(ex.map(lambda j: run_inputs(exe, [lib_input(j[0], c) for c in j[1]], trace=True, timeout=400), lib_jobs))
-    for (name, cfgs), res in zip(lib_jobs, lib_res):
-        probs, ncmp, worst = lib_analyse(name, cfgs, res)
-        done = sum(1 for r in res if r is not None and not r["nerr"])
+        def lib_job(j):
+            res = run_inputs(exe, [lib_input(j[0], c) for c in j[1]], trace=True, timeout=400)
+            return lib_analyse(j[0], j[1], res) + (sum(1 for r in res if r is not None and not r["nerr"]),)
+        lib_res = list(ex.map(lib_job, lib_jobs))
+    for (name, cfgs), (probs, ncmp, worst, done) in zip(lib_jobs, lib_res):
         evals += len(cfgs)
         distinct += done
         bump("library " + name, len(cfgs))
